@@ -503,10 +503,21 @@ static std::vector<cld> to_vals(const V& v)
         r.push_back(w(i, 0));
     return r;
 }
+// Optional history before the observed compute(): an earlier compute() on the same solver object with ANOTHER selection rule,
+// followed by the observed compute() either directly (continuing from the existing factorization) or after a new init().
+// Only drawn in regime R1 (ncv = n), where the selected set stays exactly decidable whatever the history.
+static int g_prior_rule = -1;
+static bool g_prior_reinit = false;
 template <typename Solver>
 static void run_krylov(Solver& eigs, int rule, long maxit, Real tol, Outcome& o)
 {
     eigs.init();
+    if (g_prior_rule >= 0)
+    {
+        eigs.compute(vf::ALL_RULES[g_prior_rule], (Index) maxit, tol);
+        if (g_prior_reinit)
+            eigs.init();
+    }
     o.nconv = (long) eigs.compute(vf::ALL_RULES[rule], (Index) maxit, tol);
     o.ran = true;
     o.successful = (eigs.info() == CompInfo::Successful);
@@ -983,7 +994,28 @@ static void krylov_case(vf::Draw& d, vf::Case& c, int fam)
         os << " sigma=" << R.sigma;
     if (fam_generalized(fam))
         os << " cond(M)=" << vf::num(condM) << " B_scale=1e" << b_exp;
-    os << " init(); compute(maxit=3000, tol=" << vf::num(tol) << ")";
+    g_prior_rule = -1;
+    g_prior_reinit = false;
+    if (P.r1)
+    {
+        int hist = (int) d.range("prior_compute", 0, 2);
+        if (hist > 0)
+        {
+            const int nr = general ? 6 : 5;
+            const int* rules = general ? vf::GEN_RULES : vf::SYM_RULES;
+            int pr = rules[d.range("prior_rule", 0, nr - 1)];
+            if (pr != P.rule)
+            {
+                g_prior_rule = pr;
+                g_prior_reinit = (hist == 2);
+                c.cls(g_prior_reinit ? "history/prior_compute_other_rule_then_init" : "history/prior_compute_other_rule_no_init");
+            }
+        }
+    }
+    os << " init();";
+    if (g_prior_rule >= 0)
+        os << " compute(" << vf::ALL_RULE_NAMES[g_prior_rule] << ");" << (g_prior_reinit ? " init();" : "");
+    os << " compute(maxit=3000, tol=" << vf::num(tol) << ")";
     c.add_desc(os.str());
     // ---- run ----
     Outcome o;
